@@ -80,6 +80,20 @@ def _run(cmd, log):
     return p.stdout
 
 
+def _deps(msrc, flags):
+    """harness files a monitor source depends on (g++ -MM), so that editing one monitor or one helper header
+    rebuilds only the monitors that include it"""
+    cmd = ["g++"] + [f for f in flags if not f.startswith("-fsanitize") and f != "--coverage"] + \
+          ["-I", INC, "-I", os.path.join(HARNESS, "common"), "-MM", msrc]
+    p = subprocess.run(cmd, stdout=subprocess.PIPE, stderr=subprocess.PIPE, text=True)
+    if p.returncode != 0:
+        raise BuildError("dependency scan failed: %s\n%s" % (" ".join(cmd), p.stderr[-4000:]))
+    toks = p.stdout.replace("\\\n", " ").split()
+    out = [t for t in toks[1:] if os.path.abspath(t).startswith(HARNESS)]
+    out.append(os.path.join(HARNESS, "prelude_portable.h"))
+    return sorted(set(os.path.abspath(t) for t in out))
+
+
 def _prune(cfgdir, keep):
     try:
         ents = [os.path.join(cfgdir, e) for e in os.listdir(cfgdir) if os.path.isdir(os.path.join(cfgdir, e))]
@@ -119,8 +133,8 @@ def build(cfg, mon, extra_flags=None):
         fcntl.flock(lockf, fcntl.LOCK_UN)
         lockf.close()
     msrc = os.path.join(HARNESS, mon + ".cpp")
-    hfiles = _walk(os.path.join(HARNESS, "common")) + [msrc, os.path.join(HARNESS, "prelude_portable.h")]
     mflags = list(extra_flags or [])
+    hfiles = _deps(msrc, flags + mflags)
     mkey = _sha(hfiles, key + " ".join(mflags))[:16]
     exe = os.path.join(d, "%s-%s" % (mon, mkey))
     if os.path.exists(exe):
